@@ -96,7 +96,12 @@ def subchecks(tier):
         if len(set(c.get("priority", 0) for c in spec["classes"])) >= 3:
             out.append("three_priority_levels")
         return out
+    feed = common.slot_feed_profile("C13", downstream="int", more_weights={"reneging": 1.0, "jockeying": 0.3}, required=("slotted", "slot_capacitated", "slot_preempt", "reneging"),
+                                    excluded=())
     return [
+        system_subcheck("slot_feed", feed, lambda spec: [Patience(spec)], lambda a, spec, res: a.get("reneges", 0) >= 1 and a.get("rec_interrupted_service", 0) >= 1,
+                        classes=cl_ren, obs=False, log=True, n={"quick": 2400, "thorough": 15000},
+                        rule="capacitated pre-emptive slotted node feeding a reneging node: interrupted-and-resumed customers still renege on time"),
         system_subcheck("reneging_preempt", renp, lambda spec: [Patience(spec)], nt_renp, classes=cl_renp, obs=True, log=True,
                         n={"quick": 3600, "thorough": 20000},
                         rule="reneging at nodes with pre-emptive priorities / schedules: an interrupted customer has started service and never reneges"),
